@@ -66,6 +66,28 @@ CLAIMED = {
          "wall-clock windows are judged under the mock clock only (verif::set_mock_clock); the Instant::now() path itself is exercised by the repository's own test", "4-C14"),
 }
 
+# entries refreshed after the block-head conformance specs, the algorithmic join models and the loop trace specs
+CLAIMED.update({
+ "C01": ("D+T: sink results of generated pipelines (incl. keyed joins, loops with stateful bodies) under a configuration matrix compared by TLC with SeqSemantics!Eval; traces validated against Link/Boundary; every block head replayed through comp/StartCore.tla / BinaryStart.tla (conformance)",
+         "TLC evaluates the sequential meaning (spec/SeqSemantics.tla) of every generated program and compares each sink as a bag (sequence where ordered); every run's trace is validated against spec/trace/Link.tla and Boundary.tla; every replica's receive/output events are replayed through the Start transcriptions. Small-scope over programs/configs, sampled real schedules with seeded perturbation; sys/Runtime.tla templates model checked.",
+         "programs are the typed closure of the interpreter's operator set up to a depth bound; user functions from a fixed deterministic family; schedules of the real runtime are sampled, not enumerated", "4-C01"),
+ "C05": ("M+R+T: TLC model check of comp/Start.tla and comp/SortMergeJoin.tla; TLC-generated arrival interleavings replayed on the real Start and on the real joins/zip/merge over several iterations (carry-over decided by re-running each iteration alone); grammar monitor on every operator boundary of generated jobs; block-head conformance",
+         "exhaustive model check of the block-input protocol for small constants; thousands of TLC-generated behaviours replayed on the real End+channel+Start and judged by TLC; Elem!GStep automaton at every probe of every generated pipeline; five window kinds, folds, reorder, joins over two iterations",
+         "FlushBatch erased by the grammar; upstream replicas round-synchronised (Start.tla CanSend); a replay whose arrival order could not be enforced is judged only inside that assumption", "4-C05"),
+ "C08": ("M+R+D: TLC model check of comp/HashJoin.tla and comp/SortMergeJoin.tla (the local algorithms as coded); every arrival order of TLC-enumerated script pairs (comp/Interleave.tla) enforced on the real joins, judged by JoinCheck.tla; generated join programs compared with the relational join; interval joins; BinaryStart conformance",
+         "the two local join algorithms are model checked for every small input pair and interleaving (seeded regressions must still fail); the real operators are driven through every enumerated arrival order (thorough) or a sample (quick) of hand-written and generated two-iteration cases; TLC computes the relational join for generated programs under the configuration matrix",
+         "the keyed join and broadcast shipping are covered by generated programs (D), the arrival-order replay uses one replica per side", "4-C08"),
+ "C10": ("M+D+T: TLC model check of sys/Iteration.tla (lock generation, barrier, state feedback; the no-wait variant must read stale state); loop programs compared by TLC with SeqSemantics!LoopRun; per-round state reads, lock discipline and leader decisions validated by IterTrace.tla under a delayed state feedback; block-head conformance inside loops",
+         "TLC runs the loop sequentially (state after round k = global fold of local folds, stop on condition or bound, replay re-feeds, iterate feeds back) and compares final state and output of every run; every state read of every round is checked against the state the leader decided for that round, on multi-host layouts with the state broadcast of one host held back",
+         "the gfold family is restricted to functions for which the default delta of idle replicas is neutral (what C10 assumes)", "4-C10"),
+ "C11": ("M+D+T: TLC model check of comp/SideInput.tla over comp/BinaryStart.tla (cached side, timeouts, several producers; the pre-repair variants F8/F10 must still fail); loop programs with side inputs compared with the sequential loop semantics; SideTrace.tla per round and replica; every real BinaryStart replica replayed through comp/BinaryStart.tla (BinaryConform.tla)",
+         "the receiver's decision tree is explored exhaustively for small constants; on real jobs TLC checks per round and replica that the side input is presented completely and exactly once, and that every receive/output event of the block head is the one the specification allows next",
+         "side input always the right operand in generated programs; conformance mismatches are reported as DRIFT, verdicts come from the C11 predicates and hangs", "4-C11"),
+ "C20": ("M + fault enumeration + T: TLC model check of sys/Crash.tla; panic injected at enumerated (operator, replica, element) points of acyclic jobs; CrashCheck.tla judges hosts' outcomes and sinks against the replica-level execution graph",
+         "for each crash point: execute_blocking must fail on the host of the failed replica and on every host running a replica reachable from it through the links of the dumped execution graph, no StreamOutput sink fed from the failed block or downstream may publish, and every spawned worker thread must end within 6 s",
+         "collect_channel / for_each stream by contract and are excluded; downstream = reachability over replica-level links", "4-C20"),
+})
+
 def main():
     props = [json.loads(l)["id"] for l in open(os.path.join(ROOT, "properties.jsonl"))]
     commits = subprocess.run(["git", "-C", "/repo", "log", "--format=%H %s", "d221401..HEAD"],
